@@ -182,6 +182,22 @@ def lib_precision(col):
         return 1e-6
 
 
+def qcvar_mixed_direction(x, dim):
+    """True if the search bracket the library builds (mean-centred data, ends padded by an absolute 1e-8, all in the tensor's dtype) is degenerate for
+    some column but not for all: fn(lower) > fn(upper) fails there (the padding is absorbed by rounding when a column is constant at the resolution of
+    its dtype), so bisect's all()-based direction test reads the whole batch as increasing and *every* column is searched the wrong way."""
+    with torch.no_grad():
+        inp = x - x.mean(dim=dim, keepdim=True)
+        lower = torch.amin(-inp, dim=dim, keepdim=True) - 1e-8
+        upper = torch.amax(-inp, dim=dim, keepdim=True) + 1e-8
+
+        def g(w):
+            return torch.relu(-w - inp).mean(dim=dim, keepdim=True)
+
+        dec = g(lower) > g(upper)
+        return bool((~dec).any()) and bool(dec.any()) and bool((lower < upper).all())
+
+
 def judge_qcvar(ctx, mon, x, lam, dim, out, sig):
     if not torch.isfinite(x).all() or not lam >= 1 or x.numel() == 0:
         ctx.ood(mon)
@@ -223,6 +239,8 @@ def judge_qcvar(ctx, mon, x, lam, dim, out, sig):
             ctx.branch("qcvar.defect_regime_ok" if regime else "qcvar.regular")
             continue
         key = "qcvar.bracket_lower_bound_above_root" if (regime and got > float(want)) else "value"
+        if dim is not None and qcvar_mixed_direction(x, dim):
+            key = "qcvar.constant_column_flips_search_direction"
         ctx.violation(mon, key, f"quadratic CVaR {got!r} != min_w [w + lam mean(max(-w-x,0)^2)] = {float(want)!r} at w*={float(wstar)!r} "
                       f"(lam={lam}, N={n}, mean(max-x)<1/(2lam): {regime})", sig=sig, sample=col[:50], lam=lam, observed=got,
                       oracle=float(want), argmin=float(wstar), bound=bound, n=n, dim=dim)
@@ -557,10 +575,14 @@ def drv_witness(ctx, k, rng):
     elif k == 2:
         x = t(np.arange(12.0).reshape(3, 4), F64)
         F.expected_shortfall(x, 0.5)  # k = ceil(0.5*12) = 6 > last-dim size 4
+    elif k == 3:
+        # an ordinary column next to one that is constant at float32 resolution: the first column's true value is 0.34512
+        x = torch.tensor([[-0.34759521484375, 3060119.5], [-0.3045158386230469, 3060119.5], [-0.13638892769813538, 3060119.5]], dtype=F32)
+        F.quadratic_cvar(x, 303.36865483144476, dim=0)
 
 
 DRIVERS = [
-    ("witness", 3, 3, drv_witness),
+    ("witness", 4, 4, drv_witness),
     ("functional", 260, 20000, drv_functional),
     ("modules", 160, 8000, drv_modules),
 ]
